@@ -1,2 +1,88 @@
-(* C11 property theorems (draft). *)
-From OIDC Require Import Lib C11_Url C11_Html C11_spec.
+(* C11 property theorems: authorization response parameters arrive intact and
+   cannot inject markup.  Nothing but statements closed by [exact].
+   Vocabulary: coq/theories/C11_Url.v (net/url, pkg/op builders, user agent
+   for a Location), C11_Html.v (html/template, form_post template, user agent
+   for an attribute), C11_spec.v (case vocabulary, model, property predicate). *)
+From OIDC Require Import Lib C11_Url C11_Html C11_spec C11_Url_proofs C11_Html_proofs C11_proofs.
+
+(* url.QueryUnescape (url.QueryEscape s) = s for every byte string *)
+Theorem C11_query_escape_inverse : forall s, unescape EQuery (escape EQuery s) = Some s.
+Proof. exact query_escape_inverse. Qed.
+Print Assumptions C11_query_escape_inverse.
+
+(* url.ParseQuery (Values.Encode m) gives back every (key, value) of m, arbitrary
+   bytes in keys and values, keys in sorted order, each key's values in order *)
+Theorem C11_parse_encode : forall l, parse_query (values_encode l) = sort_pairs l.
+Proof. exact parse_encode. Qed.
+Print Assumptions C11_parse_encode.
+
+(* Query mode (response_mode=query, or the default of a code response type): for
+   every parsed redirect URI, every parameter list, the user agent that cuts the
+   Location at '#' and '?' finds the redirect target untouched and, in the raw
+   query, exactly the redirect URI's own parameters plus the new ones: as a whole
+   (stable-sorted by key) and per key (old values first, order kept). *)
+Theorem C11_query_mode : forall u rtype rmode params,
+  url_wf u = true -> expected_channel rtype rmode = ChQuery ->
+  let loc := auth_response_url u rtype rmode params in
+  ua_base loc = u_prefix u
+  /\ ua_query loc = sort_pairs (parse_query (u_raw_query u) ++ params)
+  /\ forall k, vals k (ua_query loc) = vals k (parse_query (u_raw_query u)) ++ vals k params.
+Proof. exact query_mode. Qed.
+Print Assumptions C11_query_mode.
+
+(* Fragment mode (response_mode=fragment, or the default of the implicit response
+   types), after fix F08: the raw fragment is the once-encoded parameter string,
+   the user agent reads exactly the parameters out of it, and the redirect URI's
+   query is still there. *)
+Theorem C11_fragment_mode : forall u rtype rmode params,
+  url_wf u = true -> expected_channel rtype rmode = ChFragment ->
+  let loc := auth_response_url u rtype rmode params in
+  ua_base loc = u_prefix u
+  /\ ua_raw_fragment loc = values_encode params
+  /\ ua_fragment loc = sort_pairs params
+  /\ ua_query loc = parse_query (u_raw_query u).
+Proof. exact fragment_mode. Qed.
+Print Assumptions C11_fragment_mode.
+
+(* form_post: a value that HTML text can carry at all (well-formed UTF-8, no NUL,
+   no CR - the explicit guard [text_ok]) comes back unchanged when the user agent
+   decodes the document, normalises newlines and resolves character references
+   in the attribute html/template wrote. *)
+Theorem C11_form_post_roundtrip : forall v, text_ok v = true -> ua_attr (attr_escape v) = v.
+Proof. exact ua_attr_escape. Qed.
+Print Assumptions C11_form_post_roundtrip.
+
+(* form_post: for EVERY byte string (no guard needed) the escaped attribute has no
+   quote, apostrophe or angle bracket, and each '&' starts one of the six
+   references the escaper writes: nothing can leave the attribute. *)
+Theorem C11_form_post_no_breakout : forall v, attr_inert (attr_escape v) = true.
+Proof. exact attr_escape_inert. Qed.
+Print Assumptions C11_form_post_no_breakout.
+
+(* form_post: whatever string is passed as redirect URI, the action attribute is
+   inert; for an http/https/mailto/relative URI made of URL code points it is the
+   redirect URI itself. *)
+Theorem C11_form_post_action : forall redirect,
+  attr_inert (form_action redirect) = true
+  /\ (is_safe_url redirect = true -> url_clean redirect = true ->
+      ua_attr (form_action redirect) = redirect).
+Proof. exact (fun r => conj (form_action_inert r) (form_action_roundtrip r)). Qed.
+Print Assumptions C11_form_post_action.
+
+(* The property predicate holds on the model for every call of AuthResponseURL,
+   AuthResponseFormPost, AuthResponseCode and AuthRequestError whose input meets
+   the guard [wf]: the rendered redirect target has no '?'/'#' and the raw query
+   no '#' (url.Parse / URL.String guarantee both); for calls through
+   http.Redirect target and query are ASCII; for form_post the redirect URI is an
+   http/https/mailto/relative URI of URL code points.
+   The statement WITHOUT the scheme guard ("forall i, spec i (model i) = true"
+   for form_post with any redirect URI) is false - finding F23, next theorem. *)
+Theorem C11_response_intact_partial : forall i, wf i = true -> spec i (model i) = true.
+Proof. exact spec_model_partial. Qed.
+Print Assumptions C11_response_intact_partial.
+
+(* F23 (recorded, open): form_post with a custom-scheme redirect URI posts to
+   "#ZgotmplZ", not to the redirect URI. *)
+Theorem C11_form_post_custom_scheme_refuted : exists i, spec i (model i) = false.
+Proof. exact form_post_custom_scheme_refuted. Qed.
+Print Assumptions C11_form_post_custom_scheme_refuted.
